@@ -116,6 +116,10 @@ def run_check(prop: str, tier: str, seed: int, overrides: dict | None = None) ->
                 else:
                     shard_errors.append(f"shard {s}: died rc={rc} without output: {output[-1500:]}")
     finally:
+        # never leave shard processes behind (the runner itself may be interrupted or killed by a caller's timeout)
+        for proc, _, _ in running.values():
+            if proc.poll() is None:
+                proc.kill()
         shutil.rmtree(workdir, ignore_errors=True)
 
     return finish(prop, tier, seed, mod, plan, results, shard_errors, time.monotonic() - t0)
